@@ -7,7 +7,9 @@ package pubsub
 import (
 	"context"
 	"encoding/xml"
+	"io"
 	"strconv"
+	"sync"
 
 	"mellium.im/xmlstream"
 	"mellium.im/xmpp"
@@ -71,6 +73,7 @@ func FetchIQ(ctx context.Context, iq stanza.IQ, s *xmpp.Session, q Query) *Iter 
 	if err != nil {
 		return &Iter{err: err}
 	}
+	resp = &errCloser{TokenReadCloser: resp}
 
 	tok, err := resp.Token()
 	if err != nil {
@@ -102,6 +105,31 @@ func FetchIQ(ctx context.Context, iq stanza.IQ, s *xmpp.Session, q Query) *Iter 
 		iter: paging.WrapIter(xmlstream.NewIter(resp), 0),
 		err:  err,
 	}
+}
+
+// errCloser closes the response as soon as reading from it fails.
+// The iterator only closes the reader it iterates over after draining it
+// without an error, and a response that is never closed blocks the session.
+type errCloser struct {
+	xmlstream.TokenReadCloser
+	once sync.Once
+	err  error
+}
+
+func (r *errCloser) Token() (xml.Token, error) {
+	tok, err := r.TokenReadCloser.Token()
+	if err != nil && err != io.EOF {
+		/* #nosec */
+		r.Close()
+	}
+	return tok, err
+}
+
+func (r *errCloser) Close() error {
+	r.once.Do(func() {
+		r.err = r.TokenReadCloser.Close()
+	})
+	return r.err
 }
 
 // Iter is an iterator over payload items.
